@@ -27,6 +27,21 @@
 #include <utility>
 #include <vector>
 
+#ifdef PGM_INDEX_VERIF
+namespace pgm::verif {
+/** One step of the descent of PGMIndex::segment_for_key, recorded when a harness sets route_log. */
+struct RouteStep {
+    int level;         ///< level the step selected a segment in
+    size_t predicted;  ///< position predicted by the level above (after the cap by the next intercept)
+    size_t window_lo;  ///< index, within the level, where the scan / binary search started
+    size_t window_hi;  ///< one past the last index of the binary-search window (0 on the linear-scan path)
+    size_t chosen;     ///< index, within the level, of the segment that was selected
+    size_t level_size; ///< number of segments of the level (sentinel and extra segment included)
+};
+inline thread_local std::vector<RouteStep> *route_log = nullptr;
+}
+#endif
+
 namespace pgm {
 
 #define PGM_SUB_EPS(x, epsilon) ((x) <= (epsilon) ? 0 : ((x) - (epsilon)))
@@ -74,6 +89,9 @@ protected:
 
     static_assert(Epsilon > 0);
     struct Segment;
+#ifdef PGM_INDEX_VERIF
+    friend struct pgm::verif::Access;
+#endif
 
     size_t n;                           ///< The number of elements this index was built on.
     K first_key;                        ///< The smallest element.
@@ -141,6 +159,10 @@ protected:
             auto level_begin = segments.begin() + levels_offsets[l];
             auto pos = std::min<size_t>((*it)(key), std::next(it)->intercept);
             auto lo = level_begin + PGM_SUB_EPS(pos, EpsilonRecursive + 1);
+#ifdef PGM_INDEX_VERIF
+            auto verif_lo = size_t(lo - level_begin);
+            auto verif_hi = size_t(0);
+#endif
 
             static constexpr size_t linear_search_threshold = 8 * 64 / sizeof(Segment);
             if constexpr (EpsilonRecursive <= linear_search_threshold) {
@@ -150,8 +172,16 @@ protected:
             } else {
                 auto level_size = levels_offsets[l + 1] - levels_offsets[l] - 1;
                 auto hi = level_begin + PGM_ADD_EPS(pos, EpsilonRecursive, level_size);
+#ifdef PGM_INDEX_VERIF
+                verif_hi = size_t(hi - level_begin);
+#endif
                 it = std::prev(std::upper_bound(lo, hi, key));
             }
+#ifdef PGM_INDEX_VERIF
+            if (verif::route_log)
+                verif::route_log->push_back({l, pos, verif_lo, verif_hi, size_t(it - level_begin),
+                                             levels_offsets[l + 1] - levels_offsets[l]});
+#endif
         }
         return it;
     }
